@@ -192,11 +192,18 @@ func (c JSONArrayCodec) Read(data []byte, ptr unsafe.Pointer, wt plenccore.WireT
 	}
 	offset := n
 
+	// The decoded slice holds exactly the encoded elements. Re-use the
+	// target's backing array if it is big enough, starting from nil entries.
 	a := *(*[]any)(ptr)
-	if a == nil {
+	if uint64(cap(a)) < count || a == nil {
 		a = make([]any, count)
-		*(*[]any)(ptr) = a
+	} else {
+		a = a[:count]
+		for i := range a {
+			a[i] = nil
+		}
 	}
+	*(*[]any)(ptr) = a
 
 	for i := range a {
 		l, n := plenccore.ReadVarUint(data[offset:])
